@@ -91,16 +91,24 @@ Section Oracles.
     main_try None (tool_input_shape tn_g c cwd extra) = main_try (Some Gemini) (tool_input_shape tn_g c cwd extra).
   Proof. exact (same_three_auto S G o_resolve o_getcwd o_load_config o_configure_logging o_log_decision
                                 o_analyze o_gmatch o_words o_after_prep o_after_rule o_print). Qed.
+  (* C12_mode, last clause: the forced mode never influences the verdict.  For every input that carries
+     tool_name or command (every host's shape does), and for every input that is not an object at all,
+     any two modes give answers that their hosts read as the same verdict and reason. *)
+  Theorem C12_mode_independent : forall m1 m2 inp,
+    keyed inp \/ (forall kv, inp <> JObj kv) ->
+    read_res m1 (main_try (Some m1) inp) = read_res m2 (main_try (Some m2) inp).
+  Proof. exact (main_mode_independent S G o_resolve o_getcwd o_load_config o_configure_logging o_log_decision
+                                      o_analyze o_gmatch o_words o_after_prep o_after_rule o_print). Qed.
 End Oracles.
+Print Assumptions C12_mode_independent.
 Print Assumptions C12_factor.
 Print Assumptions C12_same.
 Print Assumptions C12_same_auto.
 
-(* C12_mode, last clause ("never influences the verdict"), FULL statement:
-     forall e e' inp, read (mode e inp) (main e inp) = read (mode e' inp) (main e' inp).
-   It holds between Claude and Gemini (C12_factor: same core) and for every host on its own input
-   shape (C12_same).  It is FALSE when a flag forces Cursor on a Claude-shaped input (or Claude/Gemini
-   on a Cursor-shaped one): the command is then looked for in the wrong place. *)
+(* History: before /repo commit 21206e4 a forced mode also decided WHERE the command was looked for, and
+   the statement above was false (witness: --cursor on {"tool_name":"Bash","tool_input":{"command":"ls"}}
+   gave ask "empty command").  What remains mode-dependent is only an object with NEITHER key, which
+   no host sends: Cursor mode analyses the empty command, the others answer {}. *)
 Definition cfg0 : config unit unit :=
   {| c_shell := tt; c_mcp := []; c_after := []; c_after_mcp := []; c_log := tt |}.
 Definition demo_try :=
@@ -108,14 +116,16 @@ Definition demo_try :=
      (fun c _ _ => if str_eqb c $"ls" then Ok ($"allow", $"ls") else Ok ($"ask", $"empty command"))
      (fun _ _ => false) (fun _ => []) (fun _ _ _ => Ok tt) (fun _ _ _ _ => Ok false) (fun _ => Ok tt).
 
-Theorem C12_mode_independent_refuted :
-  exists inp,
-    read_res Claude (demo_try (Some Claude) inp) = Ok [Some (Allow, $"ls")] /\
-    read_res Cursor (demo_try (Some Cursor) inp) = Ok [Some (Ask, $"empty command")].
-Proof.
-  exact (ex_intro _ (tool_input_shape $"Bash" (JStr $"ls") (JStr $"/w") []) (conj eq_refl eq_refl)).
-Qed.
-Print Assumptions C12_mode_independent_refuted.
+Example C12_formerly_refuted_witness :
+  let inp := tool_input_shape $"Bash" (JStr $"ls") (JStr $"/w") [] in
+  read_res Claude (demo_try (Some Claude) inp) = Ok [Some (Allow, $"ls")] /\
+  read_res Cursor (demo_try (Some Cursor) inp) = Ok [Some (Allow, $"ls")].
+Proof. vm_compute. auto. Qed.
+Example C12_mode_degenerate :
+  let inp := JObj [($"cwd", JStr $"/w")] in
+  read_res Claude (demo_try (Some Claude) inp) = Ok [None] /\
+  read_res Cursor (demo_try (Some Cursor) inp) = Ok [Some (Ask, $"empty command")].
+Proof. vm_compute. auto. Qed.
 
 (* non-vacuity: a command of each verdict class through the three shapes *)
 Example C12_example :
